@@ -121,6 +121,14 @@ def splice(segs, fn_name, directives, cfile):
             raise LostAnchor('%s: @%s %d but function %s has %d loops' % (cfile, d, k, fn_name, len(loops)))
         return loops[k - 1]
 
+    # string literals of the function, for proof blocks that want them revealed (placeholder /*REVEAL_STRLITS*/)
+    lits = []
+    for mm in re.finditer(r'"((?:[^"\\\n]|\\.)*)"', text[ob:cb]):
+        # only real string literals: the opening quote must be non-code per the mask, i.e. a literal delimiter
+        if not mask[ob + mm.start()] and mm.group(0) not in lits and len(mm.group(1)) <= 12:
+            lits.append(mm.group(0))
+    reveal = ' '.join('reveal_strlit(%s);' % l for l in lits)
+    directives = [(d, arg, body.replace('/*REVEAL_STRLITS*/', reveal), ln) for (d, arg, body, ln) in directives]
     for d, arg, body, ln in directives:
         note = '%s:%d @%s %s' % (os.path.basename(cfile), ln, d, arg)
         order += 1
@@ -280,6 +288,15 @@ def extract_unit(repo, unit_dir, out_path, variant=None):
                         raise LostAnchor('%s: `%s %s` in impl %s: found %d' % (rel, it['kind'], it['name'], w['name'], len(cands)))
                     return cands[0]
                 lo, hi = rl.item_span(src, mask, w['kind'], w['name'])
+                try:
+                    return rl.item_span(src, mask, it['kind'], it['name'], lo, hi)
+                except rl.LexError:
+                    if it.get('_hoisting'):
+                        raise
+                    # the item may have been moved to module level (a harmless refactoring): look there
+                    sp = rl.item_span(src, mask, it['kind'], it['name'])
+                    log.append({'rule': 'R1 (not needed): item found at module level', 'item': it['name']})
+                    return sp
             return rl.item_span(src, mask, it['kind'], it['name'], lo, hi)
         except rl.LexError as e:
             raise LostAnchor('%s: %s' % (rel, e))
@@ -331,7 +348,10 @@ def extract_unit(repo, unit_dir, out_path, variant=None):
         # R1: hoist nested items out of this item (spans computed on the source, applied last-first)
         hspans = []
         for h in it.get('hoist', []):
-            ha, hb = locate(rel, dict(h, within={'kind': it['kind'], 'name': it['name']}))
+            try:
+                ha, hb = locate(rel, dict(h, within={'kind': it['kind'], 'name': it['name']}, _hoisting=True))
+            except LostAnchor:
+                continue   # not nested any more (moved to module level): nothing to hoist
             while hb < len(src) and src[hb] in ' \t':
                 hb += 1
             if hb < len(src) and src[hb] == '\n':
